@@ -5,9 +5,10 @@ import hsm_corr
 def explore(run, lean):
     n = 1500 if run.tier == "quick" else 20000
     hsm_corr.explore(run, "C23", n, hosts=("plain", "instr", "queued"))
+    hsm_corr.explore_ao_names(run, 40 if run.tier == "quick" else 1000)
     run.extra["rule"] = ("random charts (1-14 states, 40%% deep chains) on plain / instrumented / queued hosts, spied and un-spied; "
                          "non-trivial = the script contains an operation the property speaks about; distinct by canonical JSON")
-    ROUND6_RULE = '; queries between steps: the names are read after is_in / child_state as well'
+    ROUND6_RULE = '; queries between steps: the names are read after is_in / child_state as well; named and un-named active objects: names right after start_at and after an event'
     run.extra["rule"] += ROUND6_RULE
 
 
